@@ -60,6 +60,13 @@ PROBES = {
     "nested_parentheses_200": ("z.c", "int\tfn(int a)\n{\n\treturn (" + "(" * 200 + "a" + ")" * 200 + ");\n}\n"),
     "guard_list_h_in_queue_h": ("queue.h", "#ifndef LIST_H\n# define LIST_H\n\nint\tbar(void);\n\n#endif\n"),
     "guard_list_h_in_list_h": ("list.h", "#ifndef LIST_H\n# define LIST_H\n\nint\tbar(void);\n\n#endif\n"),
+    # statements whose recognition runs through helper tables (member names after a call, keywords used as members, casts,
+    # sizeof, ternaries, compound assignments with separators on the right-hand side): analysed twice and after every history
+    "call_arrow_member_assign": ("aa.c", "void\tfn(t_list *lst, int a, int b)\n{\n\tft_lstlast(lst)->next = new_node(a, b);\n\tft_lstlast(lst)->content = pick(a, b);\n"
+                                        "\tft_lstlast(lst)->prev = make(a && b, a || b);\n}\n"),
+    "statement_zoo": ("ab.c", "int\tfn(t_list *lst, int a, char **tab)\n{\n\tint\t\ti;\n\tt_pt\tp;\n\n\ti = (int)sizeof(t_pt) * a;\n\tp = (t_pt){a, i};\n"
+                              "\ti += (a > 2) ? tab[0][1] : -a;\n\tlst->next->content = (void *)tab[i];\n\t(*tab)[i]++;\n\twhile (tab[i] && i < a)\n\t\ti++;\n"
+                              "\tif (!lst || p.x >= a)\n\t\treturn (fn(lst, a - 1, tab));\n\telse if (a)\n\t\tget(lst)->prev = 0;\n\treturn (i << 2 | a);\n}\n"),
     "six_funcs": ("u.c", "\n".join("int\tf%d(void)\n{\n\treturn (%d);\n}\n" % (i, i) for i in range(6))),
 }
 
